@@ -503,12 +503,58 @@ var errorSiteInputs = []string{
 	"SELECT EXTRACT(DAY FOO x)", "SELECT x[FOO(1)]", "SELECT INTERVAL 1 FOO BAR", "SELECT IF(1)", "SELECT CASE END", "SELECT (1, ", "SELECT ((SELECT 1",
 }
 
+// typeSiteInputs: every type-like text in every type position (most combinations are errors with their own message: a
+// parameterised or nested type where only a scalar one may stand, a literal or punctuation where a type name must stand ...).
+var typeSiteTypes = []string{"INT64", "STRING(MAX)", "BYTES(10)", "STRING", "ARRAY<INT64>", "ARRAY<STRING(MAX)>", "ARRAY<ARRAY<INT64>>", "ARRAY<STRUCT<x INT64>>", "STRUCT<x INT64, STRING>",
+	"ARRAY<1>", "ARRAY<'x'>", "ARRAY<(>", "ARRAY<>", "STRUCT<>", "FOO", "FOO(1)", "p.q", "INT64(1)", "TOKENLIST", "ARRAY<FLOAT32>(vector_length=>2)", "STRING(FOO)", "1", "'x'", "ARRAY"}
+
+var typeSitePositions = []string{"CREATE TABLE t (a %s) PRIMARY KEY (a)", "CREATE TABLE t (a INT64, b %s AS (a) STORED) PRIMARY KEY (a)", "ALTER TABLE t ADD COLUMN c %s", "ALTER TABLE t ALTER COLUMN c %s NOT NULL",
+	"SELECT CAST(x AS %s)", "SELECT ARRAY<%s>[]", "SELECT STRUCT<a %s>(1)", "CREATE MODEL m INPUT (a %s) OUTPUT (b INT64) REMOTE"}
+
+var typeSiteInputs = func() []string {
+	var out []string
+	for _, pos := range typeSitePositions {
+		for _, ty := range typeSiteTypes {
+			out = append(out, fmt.Sprintf(pos, ty))
+		}
+	}
+	return out
+}()
+
+// sizeProbeInputs: (a) sibling sub-expressions below 200 ... 1500 levels of parentheses, clean and with two errors at the bottom
+// (depth guards, what happens beyond them); (b) errors whose range spans lines, starting at column 0 ... 5000 with a following line
+// of 0 ... 4500 bytes (excerpts of long lines); (c) the CAST(... AS INT64) / literal forms of LIMIT, OFFSET and TABLESAMPLE sizes
+// with an operand of every literal kind.
+var sizeProbeInputs = func() []string {
+	var out []string
+	for _, k := range []int{200, 999, 1000, 1001, 1500} {
+		o, c := strings.Repeat("(", k), strings.Repeat(")", k)
+		out = append(out, o+"[(1), (2)]"+c, o+"f((1), (2), [3])"+c, o+"[(1 +), (2 +)]"+c, "SELECT "+o+"(1, (2 +), (3 +))"+c)
+	}
+	for _, a := range []int{0, 150, 250, 400, 1000, 5000} {
+		for _, b := range []int{0, 150, 210, 222, 1000, 4500} {
+			for _, opener := range []string{"'''abc", "/* c", "SELECT \"\"\"x"} {
+				out = append(out, strings.Repeat(" ", a)+opener+"\n"+strings.Repeat("y", b)+"\n")
+			}
+		}
+	}
+	for _, v := range []string{"1", "1.5", ".5", "'1'", "NULL", "@p", "-1", "x", "TRUE", "0x1F", "CAST(1 AS INT64)"} {
+		out = append(out, "SELECT 1 LIMIT CAST("+v+" AS INT64)", "SELECT 1 LIMIT 1 OFFSET CAST("+v+" AS INT64)", "SELECT 1 LIMIT "+v+" OFFSET "+v,
+			"SELECT * FROM t TABLESAMPLE BERNOULLI (CAST("+v+" AS FLOAT64) PERCENT)", "SELECT * FROM t TABLESAMPLE RESERVOIR ("+v+" ROWS)", "(SELECT 1 LIMIT CAST("+v+" AS INT64)) UNION ALL SELECT 2")
+	}
+	return out
+}()
+
 // errorSiteVariants: each input alone, shifted to another line / column, and after another statement.
 func errorSiteVariants() []string {
 	var out []string
 	for _, s := range errorSiteInputs {
 		out = append(out, s, "\n\n   "+s, "SELECT 1;\n"+s, s+" ;\n"+s)
 	}
+	for _, s := range typeSiteInputs { // (after the others: callers index the first len(errorSiteInputs)*4 entries)
+		out = append(out, s, "SELECT 1;\n"+s)
+	}
+	out = append(out, sizeProbeInputs...)
 	return out
 }
 
